@@ -68,6 +68,11 @@ class Ctx:
         self.exhaustive = None
         self.findings = [f for f in load_findings() if f.get("property") == prop and f.get("status") == "known"]
 
+    def log(self, msg):
+        if os.environ.get("VERIF_PROGRESS"):
+            sys.stderr.write("[%6.1fs] %s\n" % (time.time() - self.t0, msg))
+            sys.stderr.flush()
+
     # ---- coverage bookkeeping
     @property
     def quick(self):
@@ -92,10 +97,12 @@ class Ctx:
             raise Machinery("TLC error in %s: %s" % (what, res.error))
         self.states += res.distinct
         self.transitions += res.generated
+        self.log("design %s: %d states %.1fs violation=%s" % (what, res.distinct, res.wall_s, res.violation))
         self.design_runs.append(dict(what=what, states=res.distinct, transitions=res.generated, depth=res.depth,
                                      wall_s=round(res.wall_s, 1), coverage={k: v[1] for k, v in res.coverage.items()}))
 
     def add_trace(self, st, n_traces=None):
+        self.log("trace validation: %d events in %d runs, %.1fs" % (st["events"], st["runs"], st["wall_s"]))
         self.states += st["states"]
         self.transitions += st["transitions"]
         self.traces += st["events"] if n_traces is None else n_traces
